@@ -103,6 +103,8 @@ def run(ck, facts, tier):
     nd, tb = list(ck.not_decided), list(ck.trusted)
     c06.run(ck, facts, tier, only={"R06.0", "R06.1", "R06.2"})
     ck.not_decided[:], ck.trusted[:] = nd, tb
+    from rules import pywrap
+    pywrap.run_calendar_wrappers(ck, facts)          # what a Python user calls is the wrapper: it must hand its arguments to the core method unchanged
     ck.not_decided += ["termination (a week mask with no working day, or no settlement day ahead)", "dates outside chrono's range",
                        "the postcondition follows from the linear-search idiom; it is not evaluated on concrete calendars"]
     ck.trusted += ["lib/cel.py loop summarisation (while as iterate(init, cond, step))", "chrono: date +/- Days(1) is the next/previous calendar day"]
